@@ -87,6 +87,7 @@ type State struct {
 	defers []deferred
 	trace  []string // human-readable branch decisions
 	panicking bool
+	calls   []string        // names of the callees called so far on this path (for ncalls(...) in specs)
 	private map[string]bool // objects allocated by this execution whose address has not escaped (unknown callees cannot touch them)
 }
 
@@ -114,6 +115,7 @@ func (s *State) clone() *State {
 	n.defers = append([]deferred{}, s.defers...)
 	n.trace = append([]string{}, s.trace...)
 	n.panicking = s.panicking
+	n.calls = append([]string{}, s.calls...)
 	if s.private != nil {
 		n.private = map[string]bool{}
 		for k := range s.private {
